@@ -342,6 +342,7 @@ class Module(HasAccessibles):
         self.attachedModules = {}
         self.errors = []
         self._isinitialized = False
+        self.initFailed = False  # set when earlyInit or initModule raised an error
         self.updateCallback = srv.dispatcher.announce_update
 
         # handle module properties
